@@ -717,3 +717,62 @@ func e10SendOnClosable(p *Prog, r *Report, rule string) {
 	}
 	r.Count("e10.closed_and_sent_channel_fields", n)
 }
+
+// queueSwapWakes: whenever a published object's message queue (recvQ/sendQ) is replaced by
+// a new channel, the goroutines blocked on the OLD channel must be told: the object's
+// sizeQ is closed (and replaced) in the same step.  If the wake-up is skipped or made
+// conditional, a Recv/Send parked on the orphaned channel waits for messages that now go
+// to the new one.
+func queueSwapWakes(p *Prog, r *Report, R string, inPkg func(rel string) bool) {
+	n := 0
+	for _, fn := range p.Funcs {
+		rel, _ := p.FuncRel(fn)
+		if !inPkg(rel) {
+			continue
+		}
+		evs := p.Events(fn)
+		for _, e := range evs {
+			if e.Kind != "store" || !strings.HasPrefix(e.Args[0], "make(chan,") {
+				continue
+			}
+			i := strings.LastIndex(e.What, ".")
+			if i < 0 {
+				continue
+			}
+			base, fld := e.What[:i], strings.ToLower(e.What[i+1:])
+			if (fld != "recvq" && fld != "sendq") || strings.HasPrefix(base, "$complit") {
+				continue
+			}
+			st, ok := e.In.(*ssa.Store)
+			if !ok {
+				continue
+			}
+			fa, ok := st.Addr.(*ssa.FieldAddr)
+			if !ok {
+				continue
+			}
+			hasSizeQ := false
+			if pt, ok := fa.X.Type().Underlying().(*types.Pointer); ok {
+				if stt, ok := pt.Elem().Underlying().(*types.Struct); ok {
+					for k := 0; k < stt.NumFields(); k++ {
+						if stt.Field(k).Name() == "sizeQ" {
+							hasSizeQ = true
+						}
+					}
+				}
+			}
+			if !hasSizeQ {
+				continue
+			}
+			n++
+			ok = false
+			for _, c := range evs {
+				if c.Kind == "close" && c.In.Block() == e.In.Block() && len(c.Args) == 1 && strings.HasSuffix(c.Args[0], ".sizeQ") && strings.HasPrefix(c.Args[0], base+".") {
+					ok = true
+				}
+			}
+			r.Check(ok, R, p.FuncName(fn)+"/"+e.What, p.InstrPos(e.In), "the old sizeQ is closed in the step that replaces the queue", "the queue "+e.What+" is replaced without (unconditionally, in the same step) closing the object's sizeQ: a call blocked on the old channel is never woken and misses everything sent to the new one")
+		}
+	}
+	r.Count("e10.queue_swaps", n)
+}
